@@ -1243,3 +1243,224 @@ Proof.
       * rewrite zlen_cons. lia.
       * constructor; [|assumption]. cbn [fst]. now apply be32_val_range.
 Qed.
+
+Lemma fold_strings_ge5 (us : list (list Z)) : 5 * zlen us <= fold_right (fun t a => 5 + zlen t + a) 0 us.
+Proof.
+  induction us as [|t us IH]; cbn [fold_right]; [reflexivity|].
+  rewrite zlen_cons. pose proof (zlen_nonneg t). lia.
+Qed.
+
+Lemma cstr_len_le x : zlen (cstr x) <= zlen x.
+Proof.
+  induction x as [|b x IH]; cbn [cstr]; [lia|]. destruct (b =? 0); rewrite ?zlen_cons, ?zlen_nil; pose proof (zlen_nonneg x); lia.
+Qed.
+
+Lemma cstr_full_nul_free t : zlen (cstr (t ++ [0])) = zlen t -> nul_free t.
+Proof.
+  induction t as [|b t IH]; intros H; [constructor|].
+  cbn [app cstr] in H. destruct (b =? 0) eqn:E.
+  - rewrite zlen_nil, zlen_cons in H. pose proof (zlen_nonneg t). lia.
+  - rewrite !zlen_cons in H. constructor; [lia|]. apply IH. lia.
+Qed.
+
+Lemma err_reload_start sm ql qu : sm_with_queue sm None None = sm ->
+  err_reload fixed_variant (with_queue (with_sm fresh_conn (SmLive sm)) None None ql qu) = Ok (EINVOP, clean_conn 0).
+Proof.
+  intros Hq.
+  change (with_queue (with_sm fresh_conn (SmLive sm)) None None ql qu)
+    with (sqconn (with_sm fresh_conn (SmLive sm)) [] [] ql qu).
+  rewrite sq_as_mid by assumption. now rewrite err_reload_mid.
+Qed.
+
+(* every byte string: either refused, leaving a clean connection, or it is the encoding of a state and the
+   result is that state's connection *)
+Theorem restore_any bs : bytes bs -> zlen bs < 4294967296 ->
+  (exists k, restore fresh_conn bs = Ok (EINVOP, clean_conn k)) \/
+  (exists st, bs = encode st /\
+              is_u32 (a_sent st) /\ is_u32 (a_handled st) /\ nul_free (a_id st) /\
+              Forall (fun p => is_u32 (fst p)) (a_unacked st) /\ zlen (a_unsent st) < 2147483648 /\
+              restore fresh_conn bs = Ok (0, canon st)).
+Proof.
+  intros Hb Hlen. rewrite restore_gen. unfold restore_v.
+  change (negb (c_state fresh_conn =? ST_DISCONNECTED)) with false. cbv iota.
+  change (c_sm fresh_conn) with SmNull. cbv iota.
+  change blob_min_len with 30.
+  destruct (zlen bs <? 30) eqn:E30; [left; exists 0%nat; reflexivity|].
+  destruct (zlen_ge5 bs) as (t & v3 & v2 & v1 & v0 & s0 & ->); [lia|].
+  set (bs := t :: v3 :: v2 :: v1 :: v0 :: s0) in *.
+  replace (rdn bs (zlen ld_version)) with (Some [t; v3; v2; v1; v0]).
+  2:{ unfold rdn. change (zlen ld_version) with 5. replace (zlen bs <? 5) with false by lia. reflexivity. }
+  change ld_version with [26; 0; 0; 0; 0]. cbn [list_eqb].
+  destruct (t =? 26) eqn:Et; cbn [andb negb]; [|left; exists 0%nat; reflexivity].
+  destruct (v3 =? 0) eqn:E3; cbn [andb negb]; [|left; exists 0%nat; reflexivity].
+  destruct (v2 =? 0) eqn:E2; cbn [andb negb]; [|left; exists 0%nat; reflexivity].
+  destruct (v1 =? 0) eqn:E1; cbn [andb negb]; [|left; exists 0%nat; reflexivity].
+  destruct (v0 =? 0) eqn:E0; cbn [andb negb]; [|left; exists 0%nat; reflexivity].
+  cbv iota.
+  apply Z.eqb_eq in Et, E3, E2, E1, E0. subst t v3 v2 v1 v0.
+  change ld_skip with 5. replace (zlen bs <? 5) with false by lia.
+  change (skipn (Z.to_nat 5) bs) with s0.
+  assert (Hb0 : bytes s0) by (repeat (apply bytes_cons in Hb as [_ Hb]); exact Hb).
+  assert (Hlen0 : zlen s0 < 4294967296) by (subst bs; rewrite !zlen_cons in Hlen; lia).
+  set (fuel := S (length bs)).
+  assert (Hfuel0 : (length s0 < fuel)%nat) by (subst fuel bs; cbn [length]; lia).
+  clearbody fuel. clear E30 Hb. subst bs.
+  (* sent *)
+  pose proof (load_u32_total s0 ld_tag_sent) as Hu.
+  destruct (load_u32 fixed_variant s0 ld_tag_sent) as [sent s1| |]; [| |contradiction].
+  2:{ left. exists 0%nat. apply (err_reload_start sm_restored0 0 0). reflexivity. }
+  destruct Hu as (a3 & a2 & a1 & a0 & -> & ->).
+  apply bytes_cons in Hb0 as [_ Hb0]. apply bytes_cons in Hb0 as [A3 Hb0]. apply bytes_cons in Hb0 as [A2 Hb0].
+  apply bytes_cons in Hb0 as [A1 Hb0]. apply bytes_cons in Hb0 as [A0 Hb0].
+  rewrite !zlen_cons in Hlen0. cbn [length] in Hfuel0.
+  (* handled *)
+  pose proof (load_u32_total s1 ld_tag_handled) as Hu.
+  destruct (load_u32 fixed_variant s1 ld_tag_handled) as [handled s2| |]; [| |contradiction].
+  2:{ left. exists 0%nat. apply (err_reload_start (sm_with_counters sm_restored0 0 (be32_val a3 a2 a1 a0)) 0 0). reflexivity. }
+  destruct Hu as (c3 & c2 & c1 & c0 & -> & ->).
+  apply bytes_cons in Hb0 as [_ Hb0]. apply bytes_cons in Hb0 as [C3 Hb0]. apply bytes_cons in Hb0 as [C2 Hb0].
+  apply bytes_cons in Hb0 as [C1 Hb0]. apply bytes_cons in Hb0 as [C0 Hb0].
+  rewrite !zlen_cons in Hlen0. cbn [length] in Hfuel0.
+  (* id *)
+  assert (Hlen2 : zlen s2 < 4294967296) by lia.
+  pose proof (load_string_total s2 Hb0 Hlen2) as Hs.
+  destruct (load_string fixed_variant s2) as [[idbuf idl] s3| |]; [| |contradiction].
+  2:{ left. exists 0%nat.
+      apply (err_reload_start (sm_with_counters (sm_with_counters sm_restored0 0 (be32_val a3 a2 a1 a0))
+                                                (be32_val c3 c2 c1 c0) (be32_val a3 a2 a1 a0)) 0 0). reflexivity. }
+  destruct Hs as (id & -> & -> & -> & Hb3).
+  cbn [v_idnul fixed_variant andb].
+  set (sent := be32_val a3 a2 a1 a0) in *. set (handled := be32_val c3 c2 c1 c0) in *.
+  set (sm3 := sm_with_id (sm_with_counters (sm_with_counters sm_restored0 0 sent) handled sent) (Some (id ++ [0]))).
+  assert (Hq3 : sm_with_queue sm3 None None = sm3) by reflexivity.
+  destruct (zlen (cstr (id ++ [0])) =? zlen id) eqn:Eid; cbn [negb]; cbv iota.
+  2:{ left. exists 0%nat. apply (err_reload_start sm3 0 0 Hq3). }
+  apply Z.eqb_eq, cstr_full_nul_free in Eid.
+  rewrite zlen_app, enc_string_len in Hlen2. rewrite app_length in Hfuel0.
+  pose proof (zlen_nonneg id) as Hidnn.
+  assert (Hl3 : (length s3 < fuel)%nat) by lia.
+  assert (Hlen3 : zlen s3 < 4294967296) by lia.
+  (* unsent count *)
+  pose proof (load_u32_total s3 ld_tag_sqcount) as Hu.
+  destruct (load_u32 fixed_variant s3 ld_tag_sqcount) as [n s4| |]; [| |contradiction].
+  2:{ left. exists 0%nat. apply (err_reload_start sm3 0 0 Hq3). }
+  destruct Hu as (n3 & n2 & n1 & n0 & -> & ->).
+  apply bytes_cons in Hb3 as [_ Hb3]. apply bytes_cons in Hb3 as [N3 Hb3]. apply bytes_cons in Hb3 as [N2 Hb3].
+  apply bytes_cons in Hb3 as [N1 Hb3]. apply bytes_cons in Hb3 as [N0 Hb3].
+  rewrite !zlen_cons in Hlen3. cbn [length] in Hl3.
+  set (n := be32_val n3 n2 n1 n0) in *.
+  pose proof (be32_val_range _ _ _ _ N3 N2 N1 N0) as Hn. fold n in Hn.
+  change (with_queue (with_sm fresh_conn (SmLive sm3)) (sq_head (with_sm fresh_conn (SmLive sm3)))
+                     (sq_tail (with_sm fresh_conn (SmLive sm3))) (to_int n) (to_int n))
+    with (sqconn (with_sm fresh_conn (SmLive sm3)) [] [] (to_int n) (to_int n)).
+  assert (Hl4 : (length s4 < fuel)%nat) by lia.
+  assert (Hlen4 : zlen s4 < 4294967296) by lia.
+  pose proof (restore_sq_total fuel s4 0 n sm3 [] (to_int n) (to_int n) Hq3 Hl4 Hb3 Hlen4) as Hsq.
+  destruct (restore_sq fixed_variant fuel 0 n _ s4) as [r|[c5 s5]].
+  { destruct Hsq as (k & ->). left. now exists k. }
+  destruct Hsq as (us & -> & -> & Hb5 & Hzus). cbn [app] in *.
+  rewrite zlen_app, zlen_concat_strings in Hlen4. rewrite app_length in Hl4.
+  pose proof (fold_strings_ge5 us) as Hge. pose proof (zlen_nonneg us) as Husnn. pose proof (zlen_nonneg s5) as Hs5nn.
+  assert (Hzn : zlen us = n) by (unfold is_u32 in Hn; lia).
+  assert (Hl5 : (length s5 < fuel)%nat) by lia.
+  assert (Hlen5 : zlen s5 < 4294967296) by (pose proof (zlen_nonneg s5); lia).
+  rewrite to_int_small by lia.
+  (* unacked count *)
+  pose proof (load_u32_total s5 ld_tag_mqcount) as Hu.
+  destruct (load_u32 fixed_variant s5 ld_tag_mqcount) as [m s6| |]; [| |contradiction].
+  2:{ left. rewrite sq_as_mid by assumption. rewrite err_reload_mid. eexists. reflexivity. }
+  destruct Hu as (m3 & m2 & m1 & m0 & -> & ->).
+  apply bytes_cons in Hb5 as [_ Hb5]. apply bytes_cons in Hb5 as [M3 Hb5]. apply bytes_cons in Hb5 as [M2 Hb5].
+  apply bytes_cons in Hb5 as [M1 Hb5]. apply bytes_cons in Hb5 as [M0 Hb5].
+  rewrite !zlen_cons in Hlen5. cbn [length] in Hl5.
+  set (m := be32_val m3 m2 m1 m0) in *.
+  pose proof (be32_val_range _ _ _ _ M3 M2 M1 M0) as Hm. fold m in Hm.
+  rewrite sq_as_mid by assumption.
+  change sm3 with (mqsm sm3 (chain 0 None (map sq_content us) None) []) at 2.
+  assert (Hl6 : (length s6 < fuel)%nat) by lia.
+  assert (Hlen6 : zlen s6 < 4294967296) by lia.
+  pose proof (restore_mq_total fuel s6 0 m sm3 (map sq_content us) [] n n Hl6 Hb5 Hlen6) as Hmq.
+  destruct (restore_mq fixed_variant fuel 0 m _ _ s6) as [r|[[c6 sm6] s7]].
+  { destruct Hmq as (k & ->). left. now exists k. }
+  destruct Hmq as (ua & -> & -> & Hb7 & Hzua & Hhs). cbn [app] in *.
+  cbn [v_trailing fixed_variant andb].
+  destruct (zlen s7 =? 0) eqn:E7; cbn [negb]; cbv iota.
+  2:{ left. rewrite err_reload_mid. eexists. reflexivity. }
+  right. exists (mkA sent handled id us ua). cbn [a_sent a_handled a_id a_unsent a_unacked].
+  assert (s7 = []) by (destruct s7; [reflexivity | rewrite zlen_cons in E7; pose proof (zlen_nonneg s7); lia]). subst s7.
+  pose proof (zlen_nonneg ua) as Huann.
+  assert (Hzm : zlen ua = m) by (unfold is_u32 in Hm; lia).
+  repeat split; try (apply be32_val_range; assumption); try assumption; try lia.
+  - unfold encode, enc_word. cbn [a_sent a_handled a_id a_unsent a_unacked].
+    rewrite Hzn, Hzm. subst n m sent handled.
+    rewrite !word_be32_val by assumption.
+    change ld_tag_sent with T_WORD. change ld_tag_handled with T_WORD. change ld_tag_sqcount with T_UNSENT.
+    change ld_tag_mqcount with T_UNACKED. rewrite app_nil_r. cbn [app]. rewrite <- ?app_assoc. reflexivity.
+  - rewrite <- Hzn. reflexivity.
+Qed.
+
+(* ------------------------------------------------------------------------------------------------ *)
+(* consequences *)
+
+Theorem reject_safe bs : bytes bs -> zlen bs < 4294967296 ->
+  exists rc c, restore fresh_conn bs = Ok (rc, c) /\ (rc <> 0 -> rc = EINVOP /\ exists k, c = clean_conn k).
+Proof.
+  intros Hb Hl. destruct (restore_any bs Hb Hl) as [(k & ->) | (st & _ & _ & _ & _ & _ & _ & ->)].
+  - exists EINVOP, (clean_conn k). split; [reflexivity|]. intros _. split; [reflexivity | now exists k].
+  - exists 0, (canon st). split; [reflexivity|]. intros H; congruence.
+Qed.
+
+Theorem accept_exact bs c : bytes bs -> zlen bs < 4294967296 -> restore fresh_conn bs = Ok (0, c) ->
+  exists st, bs = encode st /\ c = canon st /\ nul_free (a_id st) /\ is_u32 (a_sent st) /\ is_u32 (a_handled st).
+Proof.
+  intros Hb Hl Hr. destruct (restore_any bs Hb Hl) as [(k & E) | (st & -> & Hs & Hh & Hid & _ & _ & E)];
+    rewrite E in Hr.
+  - discriminate.
+  - injection Hr as <-. exists st. auto.
+Qed.
+
+Lemma live_count_freed k : live_count (repeat Freed k) = 0.
+Proof. unfold live_count. induction k; cbn; auto. Qed.
+
+Lemma free_sq_none fuel h : free_sq fuel h None = Ok h.
+Proof. destruct fuel; reflexivity. Qed.
+
+(* what "clean" buys: the connection answers every queue call like a new one, can be "connected" and used,
+   and its release frees nothing twice and leaves nothing behind *)
+Theorem clean_usable k :
+  let c := clean_conn k in
+  qlen c = Ok 0 /\
+  (forall w, drop c w = Ok (c, None, None)) /\
+  (forall t len, send_user c t len = Ok (c, None)) /\
+  (forall t, send_user_str c t = Ok (c, None)) /\
+  (forall sched, run_once c sched = Ok (c, [], None)) /\
+  release c = Ok (repeat Freed k) /\ live_count (repeat Freed k) = 0 /\
+  (forall t, nul_free t -> exists c', send_user (op_connect c) t (zlen t) = Ok (c', Some SNull) /\
+                                     qlen c' = Ok 1 /\
+                                     exists h, release (op_disconnect c') = Ok h /\ live_count h = 0).
+Proof.
+  cbv zeta. repeat split; try reflexivity.
+  - apply live_count_freed.
+  - intros t Ht. unfold send_user, op_connect, clean_conn.
+    cbn [with_heap with_sm with_state fresh_conn c_sm c_state c_heap c_neg c_cb sq_head sq_tail sq_len sq_ulen].
+    change (negb (ST_CONNECTED =? ST_CONNECTED)) with false. cbv iota.
+    rewrite strndup_nul_free by assumption.
+    unfold enqueue, halloc. cbn [c_heap sq_tail sq_head sq_len sq_ulen bind with_heap with_queue c_state c_neg c_cb c_sm].
+    change (OWNER_USER =? OWNER_USER) with true. cbv iota.
+    unfold deref_sm. cbn [c_sm bind sm_enabled sm_zero andb].
+    rewrite andb_false_r. cbv iota.
+    eexists. split; [reflexivity|]. split.
+    + unfold qlen. cbn [sq_head c_heap]. unfold hget. rewrite repeat_length.
+      rewrite <- (repeat_length Freed k) at 2. rewrite nth_error_app_len. reflexivity.
+    + unfold release, op_disconnect, with_state. cbn [c_heap sq_head c_sm c_state].
+      unfold walk_fuel. rewrite app_length. cbn [length]. rewrite repeat_length. rewrite Nat.add_1_r.
+      cbn [free_sq]. unfold hget. rewrite <- (repeat_length Freed k) at 1 2 3.
+      rewrite nth_error_app_len. cbn [bind]. unfold queue_element_free, hget.
+      rewrite nth_error_app_len. cbn [bind]. unfold hfree. rewrite nth_error_app_len.
+      rewrite lset_app_len. cbn [bind fst n_next]. rewrite free_sq_none. cbn [bind with_queue with_heap c_sm].
+      unfold free_sm_state. cbn [c_sm c_heap mq_head mq_tail sm_zero].
+      cbn [free_mq pop_queue_front bind with_sm with_heap c_heap].
+      eexists. split; [reflexivity|].
+      unfold live_count. rewrite filter_app. cbn [filter]. rewrite app_nil_r.
+      apply live_count_freed.
+Qed.
